@@ -8,6 +8,7 @@ CONSTANTS
   OptSet <- OptsAbort
   AbortCancels = TRUE
   GenChecksCtx = TRUE
+  GenEofByIs = FALSE
   ResolverSame = TRUE
   ExcludedConsulted = TRUE
   Mut = "nopanicjoin"
